@@ -524,9 +524,12 @@ func (e *Engine) topOf(p *Path, t types.Type, why string) Value {
 func (e *Engine) lazyValue(p *Path, name string, t types.Type) Value {
 	if p.NilNames[name] {
 		switch t.Underlying().(type) {
-		case *types.Pointer, *types.Interface, *types.Slice:
+		case *types.Pointer, *types.Interface, *types.Slice, *types.Signature, *types.Map, *types.Chan:
 			return &NilV{}
 		}
+	}
+	if _, isFunc := t.Underlying().(*types.Signature); isFunc {
+		return &Closure{Fn: nil} // a non-nil function value whose body is unknown
 	}
 	if w, s, ok := typeWidth(t); ok {
 		return p.SymInt(name, w, s)
